@@ -751,7 +751,10 @@ class Evaluator:
         if isinstance(op, ast.Mod):
             return ("op", "mod", (a, b))
         if isinstance(op, ast.LShift):
-            return ("op", "lshift", (a, b))
+            if num_value(a) == 1:
+                return ("op", "lshift", (a, b))   # bit masks stay recognisable as 1 << k
+            # a << b  ==  a * 2**b
+            return mul(a, ("op", "pow", (num(2), b)))
         if isinstance(op, ast.RShift):
             return ("op", "rshift", (a, b))
         if isinstance(op, ast.BitOr):
